@@ -69,6 +69,22 @@ CHECKS = {
         note=TRUST + 'Architecture restrictions (NotImplementedError) are modelled and excluded as in the property.',
         technique='Rocq proof (induction over member lists) + exhaustive small-scope co-execution against the Python code',
     ),
+    'C19': dict(
+        ref='5.19',
+        text='Theorems in coq/Properties/C19.v: for any lower-casing function, any value type and any finite operation '
+             'sequence (get/set/delete/in/len/iter/to_dict), the observations of the Debian822 model, KeyError included, '
+             'are those of a plain dictionary driven with lower-cased keys (induction over the history); all item-based '
+             'construction routes build the dictionary of the lower-cased items; name capitalisation is case-independent and '
+             'idempotent on ASCII names; typed conversion parses exactly the relationship fields (equal to parse_depends of '
+             'the raw value), turns Installed-Size into an integer and leaves other values unchanged. The model is co-executed '
+             'with debcon.Debian822 on random histories of length 0-40 after all five construction routes, all op sequences '
+             'of length <=4/5 over two casings, every known control field name in four casings, typed paragraphs, rendered '
+             'paragraphs read back and maintainer values.',
+        note=TRUST + 'Not proved: rendering read-back and the maintainer split (they go through the modelled email '
+             'fragment / a guarded model of email.utils.parseaddr) are checked by co-execution and by the executable statement only; '
+             'str.lower / str.capitalize on non-ASCII names are outside the model.',
+        technique='Rocq proof (simulation by induction over operation histories) + differential co-execution against the Python code',
+    ),
     'C20': dict(
         ref='5.20',
         text='Theorems in coq/Properties/C20.v, proved for all texts by induction over the line list of the Gallina '
